@@ -170,6 +170,18 @@ func (r *Ref) judgeAsk(o askObs, all []control.VerifExchange, refreshInFlight ma
 		add("noreply", "client question answered with an empty answer section although the upstream always answers")
 		return vs, "empty"
 	}
+	if o.Rep.QType != o.Key.Qtype {
+		add("wrong-type", "question %s was answered with a reply whose question section has type %s", o.Key, qtName(o.Rep.QType))
+	}
+	for _, t := range o.Rep.RRTypes {
+		if t != o.Key.Qtype {
+			add("wrong-type", "question %s was answered with a record of type %s", o.Key, qtName(t))
+			break
+		}
+	}
+	if len(o.Rep.Addrs) != len(o.Rep.RRTypes) {
+		add("garbled", "reply to %s carries %d answer records of which only %d are identifiable upstream records", o.Key, len(o.Rep.RRTypes), len(o.Rep.Addrs))
+	}
 	vk, vgen, ok := decodeAddr(o.Rep.Addrs[0])
 	for _, a := range o.Rep.Addrs[1:] {
 		k2, g2, ok2 := decodeAddr(a)
@@ -370,7 +382,7 @@ func (r *Ref) dump(now int64) string {
 
 var (
 	names  = []string{"a.", "b."}
-	qtypes = []uint16{1, 28}
+	qtypes = []uint16{1, 28, 6, 16, 64, 65} // A, AAAA, SOA, TXT, SVCB, HTTPS
 	scopes = []string{"u1", "u2", "asis"}
 )
 
@@ -419,10 +431,14 @@ func keyIndex(k rkey) int {
 	if n < 0 || t < 0 || s < 0 {
 		return -1
 	}
-	return n*6 + t*3 + s
+	return n*len(qtypes)*3 + t*3 + s
 }
 
-func keyOfIndex(i int) rkey { return rkey{names[i/6], qtypes[(i/3)%2], scopes[i%3]} }
+func keyOfIndex(i int) rkey {
+	return rkey{names[i/(len(qtypes)*3)], qtypes[(i/3)%len(qtypes)], scopes[i%3]}
+}
+
+func nKeys() int { return len(names) * len(qtypes) * 3 }
 
 func encodeAddr(k rkey, gen int) netip.Addr {
 	i := keyIndex(k)
@@ -435,14 +451,14 @@ func encodeAddr(k rkey, gen int) netip.Addr {
 func decodeAddr(a netip.Addr) (rkey, int, bool) {
 	if a.Is4() {
 		b := a.As4()
-		if b[0] != 10 || b[3] != 1 || b[1] == 0 || int(b[1]) > 12 || b[2] == 0 {
+		if b[0] != 10 || b[3] != 1 || b[1] == 0 || int(b[1]) > nKeys() || b[2] == 0 {
 			return rkey{}, 0, false
 		}
 		k := keyOfIndex(int(b[1]) - 1)
-		return k, int(b[2]) - 1, k.Qtype == 1
+		return k, int(b[2]) - 1, k.Qtype != 28 // every type but AAAA is named by an IPv4 (address or tag)
 	}
 	b := a.As16()
-	if b[0] != 0xfd || b[13] == 0 || int(b[13]) > 12 || b[15] == 0 {
+	if b[0] != 0xfd || b[13] == 0 || int(b[13]) > nKeys() || b[15] == 0 {
 		return rkey{}, 0, false
 	}
 	k := keyOfIndex(int(b[13]) - 1)
@@ -473,23 +489,32 @@ func parseImplKey(s string) (rkey, bool) {
 	for _, n := range names {
 		if strings.HasPrefix(base, n) {
 			k.Name = n
-			switch base[len(n):] {
-			case "1":
-				k.Qtype = 1
-			case "28":
-				k.Qtype = 28
-			default:
-				return rkey{}, false
+			for _, t := range qtypes {
+				if base[len(n):] == fmt.Sprint(t) {
+					k.Qtype = t
+					return k, true
+				}
 			}
-			return k, true
+			return rkey{}, false
 		}
 	}
 	return rkey{}, false
 }
 
 func qtName(t uint16) string {
-	if t == 28 {
+	switch t {
+	case 1:
+		return "A"
+	case 28:
 		return "AAAA"
+	case 6:
+		return "SOA"
+	case 16:
+		return "TXT"
+	case 64:
+		return "SVCB"
+	case 65:
+		return "HTTPS"
 	}
-	return "A"
+	return fmt.Sprintf("TYPE%d", t)
 }
